@@ -401,4 +401,130 @@ theorem ring_walk {h : Heap} {head : Nat} {L : List Nat} (hr : Ring h head L) :
     walk h head (L.length + 1) head = some L :=
   walk_links L head hr.2 (List.nodup_cons.1 hr.1).1
 
+
+theorem walkBack_succ (h : Heap) (head f cur : Nat) : walkBack h head (f + 1) cur =
+    match (h cur).prev with
+    | none => none
+    | some nx => if nx = head then some [] else (walkBack h head f nx).map (nx :: ·) := rfl
+
+/-- the backward traversal (`head->prev`, `->prev`, … until the head) reads the members in reverse order -/
+theorem walkBack_links {h : Heap} {head : Nat} : ∀ (k : Nat) (L : List Nat) (c : Nat), L.length = k →
+    Links h (head :: L ++ [c]) → head ∉ L → walkBack h head (k + 1) c = some L.reverse
+  | 0, L, c, hk, hl, _ => by
+    have : L = [] := List.length_eq_zero_iff.1 hk
+    subst this
+    have : (h c).prev = some head := hl.1.2
+    simp [walkBack, this]
+  | k + 1, L, c, hk, hl, hh => by
+    rcases List.eq_nil_or_concat L with e | ⟨L', x, e⟩
+    · subst e; simp at hk
+    · rw [List.concat_eq_append] at e
+      subst e
+      have hl' : Links h ((head :: L') ++ x :: [c]) := by simpa using hl
+      rw [links_split] at hl'
+      have h1 : (h c).prev = some x := hl'.2.1.2
+      have hx : x ≠ head := fun e => hh (by simp [e])
+      have hk' : L'.length = k := by simpa using hk
+      have ih := walkBack_links k L' x hk' (by simpa using hl'.1) (fun hm => hh (by simp [hm]))
+      rw [walkBack_succ, h1]; simp [hx, ih]
+
+theorem ring_walkBack {h : Heap} {head : Nat} {L : List Nat} (hr : Ring h head L) :
+    walkBack h head (L.length + 1) head = some L.reverse :=
+  walkBack_links L.length L head rfl hr.2 (List.nodup_cons.1 hr.1).1
+
+
+theorem clearLoop_spec {head z : Nat} : ∀ (rest : List Nat) (h : Heap) (c g : Nat),
+    (head :: c :: rest).Nodup → Links h (c :: rest ++ [head]) → (h c).next = some g → (h head).next = some z →
+    ∃ h', clearLoop head (rest.length + 2) h c g = some h' ∧ (∀ x ∈ c :: rest, h' x = Cell.unlinked) ∧
+      ∀ x, x ∉ c :: rest → h' x = h x
+  | [], h, c, g, nd, hl, hg, hz => by
+    have hc : c ≠ head := by intro e; subst e; simp at nd
+    have : g = head := by have := hl.1.1; rw [hg] at this; exact Option.some.inj this
+    subst this
+    refine ⟨setNext (setPrev h c none) c none, ?_, ?_, ?_⟩
+    · simp [clearLoop, hc, setNext_next_ne, Ne.symm hc, hz]
+    · intro x hx; simp at hx; subst hx
+      exact cell_ext (by simp [Cell.unlinked]) (by simp [Cell.unlinked])
+    · intro x hx; simp at hx; simp [setNext_ne, setPrev_ne, hx]
+  | r :: rest, h, c, g, nd, hl, hg, hz => by
+    have hc : c ≠ head := by intro e; subst e; simp at nd
+    have : g = r := by have := hl.1.1; rw [hg] at this; exact Option.some.inj this
+    subst this
+    have hgc : g ≠ c := by intro e; subst e; simp at nd
+    have nd' : (head :: g :: rest).Nodup := by
+      simp only [List.nodup_cons, List.mem_cons, not_or] at nd ⊢
+      exact ⟨⟨nd.1.2.1, nd.1.2.2⟩, nd.2.2.1, nd.2.2.2⟩
+    have hcn : ∀ x ∈ g :: rest ++ [head], x ≠ c := by
+      intro x hx e; subst e
+      simp only [List.nodup_cons, List.mem_cons, not_or] at nd
+      simp at hx; rcases hx with e | e | e
+      · exact hgc e.symm
+      · exact nd.2.1.2 e
+      · exact hc e
+    obtain ⟨g', hg'⟩ : ∃ g', (h g).next = some g' := by
+      have hm : g ∈ (g :: rest ++ [head]).dropLast := by
+        rw [show g :: rest ++ [head] = (g :: rest) ++ [head] from rfl, List.dropLast_concat]; simp
+      have := links_next_ne_none _ hl.2 g hm
+      cases hh : (h g).next with
+      | none => exact absurd hh this
+      | some v => exact ⟨v, rfl⟩
+    let h2 := setNext (setPrev h c none) c none
+    have hl2 : Links h2 (g :: rest ++ [head]) := by
+      apply links_frame _ hl.2
+      · intro x hx; have := hcn x (List.dropLast_subset _ hx); simp [h2, setNext_next_ne, this]
+      · intro x hx; have := hcn x (List.mem_of_mem_tail hx); simp [h2, setPrev_prev_ne, this]
+    have hg2 : (h2 g).next = some g' := by simp [h2, setNext_next_ne, hgc, hg']
+    have hz2 : (h2 head).next = some z := by simp [h2, setNext_next_ne, Ne.symm hc, hz]
+    obtain ⟨h', e1, e2, e3⟩ := clearLoop_spec rest h2 g g' nd' hl2 hg2 hz2
+    refine ⟨h', ?_, ?_, ?_⟩
+    · have : (r_len : Nat) → r_len = rest.length + 2 → clearLoop head (r_len + 1) h c g = some h' := by
+        intro n hn; subst hn
+        simp only [clearLoop, hc, if_false]
+        show (match (h2 g).next with | none => none | some g' => clearLoop head (rest.length + 2) h2 g g') = some h'
+        rw [hg2]; exact e1
+      simpa using this (rest.length + 2) rfl
+    · intro x hx
+      rcases List.mem_cons.1 hx with e | e
+      · subst e
+        have hxn : x ∉ g :: rest := by
+          intro hm; exact hcn x (by simp at hm ⊢; rcases hm with e | e <;> simp [e]) rfl
+        rw [e3 x hxn]
+        exact cell_ext (by simp [h2, Cell.unlinked]) (by simp [h2, Cell.unlinked])
+      · exact e2 x e
+    · intro x hx
+      have hxc : x ≠ c := by intro e; apply hx; simp [e]
+      have hxr : x ∉ g :: rest := by intro hm; apply hx; exact List.mem_cons_of_mem _ hm
+      rw [e3 x hxr]; simp [h2, setNext_ne, setPrev_ne, hxc]
+
+/-- `GenNodeList::ClearEntries()` on a ring: no null pointer is met, every member ends with both pointers null, the list is
+    the empty ring, other cells are untouched -/
+theorem ring_clearEntries {h : Heap} {head : Nat} {L : List Nat} (hr : Ring h head L) :
+    ∃ h', clearEntriesLoop h head (L.length + 1) = some h' ∧ Ring h' head [] ∧ (∀ x ∈ L, h' x = Cell.unlinked) ∧
+      ∀ x, x ∉ head :: L → h' x = h x := by
+  have ringEmpty : ∀ k : Heap, Ring (initHead k head) head [] := fun k =>
+    ⟨by simp, by simp [Links, Link, initHead, setNext, setPrev]⟩
+  cases L with
+  | nil =>
+    have h1 : (h head).next = some head := hr.2.1.1
+    refine ⟨initHead h head, by simp [clearEntriesLoop, h1, clearLoop], ringEmpty h, by simp, ?_⟩
+    intro x hx; simp at hx; simp [initHead, setNext_ne, setPrev_ne, hx]
+  | cons c rest =>
+    have h1 : (h head).next = some c := hr.2.1.1
+    obtain ⟨g, hg⟩ : ∃ g, (h c).next = some g := by
+      have := ring_mem_next hr (List.mem_cons_self)
+      cases hh : (h c).next with
+      | none => exact absurd hh this
+      | some v => exact ⟨v, rfl⟩
+    obtain ⟨h', e1, e2, e3⟩ := clearLoop_spec rest h c g hr.1 hr.2.2 hg h1
+    refine ⟨initHead h' head, ?_, ringEmpty h', ?_, ?_⟩
+    · simp only [clearEntriesLoop, h1, hg, List.length_cons]
+      rw [show rest.length + 1 + 1 = rest.length + 2 from rfl, e1]; rfl
+    · intro x hx
+      have : x ≠ head := by intro e; subst e; exact (List.nodup_cons.1 hr.1).1 hx
+      simp [initHead, setNext_ne, setPrev_ne, this]; exact e2 x hx
+    · intro x hx
+      have hxh : x ≠ head := by intro e; apply hx; simp [e]
+      have hxL : x ∉ c :: rest := by intro hm; apply hx; exact List.mem_cons_of_mem _ hm
+      simp [initHead, setNext_ne, setPrev_ne, hxh]; exact e3 x hxL
+
 end StepModel.GenNodeList
